@@ -168,3 +168,25 @@ def r_bind(rep: Report, site, k: Kernel, afile="hdc/algo/accessors.py", rule="R-
 
 
 ALLOWED_KW_RENAMES = {("cal_start", "calstart_ix"), ("cal_stop", "calstop_ix"), ("out_dtype", "dtype")}
+
+
+# ------------------------------------------------------------------------------- R-TOKEN
+
+
+def r_token(rep: Report, repo: Repo, method: ast.FunctionDef, site, where: str, afile="hdc/algo/accessors.py"):
+    """A user-supplied dask task name must be made unique by a token of *every* array the block function receives:
+    two lazy results computed in one graph share task keys otherwise and one silently replaces the other."""
+    name_kw = site.opts.get("name")
+    if name_kw is None:
+        return
+    toks = [c for c in ast.walk(method) if isinstance(c, ast.Call) and ast.unparse(c.func).split(".")[-1] == "tokenize"]
+    arrays = [ast.unparse(a) for a in site.args if ast.unparse(a).endswith(".data")]
+    ok = False
+    detail = "no tokenize(...) call feeds the task name"
+    if toks:
+        targs = {ast.unparse(a) for t in toks for a in t.args}
+        missing = [a for a in arrays if a not in targs]
+        ok = not missing
+        detail = f"tokenize arguments {sorted(targs)}; arrays passed to the block function {arrays}; not covered: {missing}"
+    rep.ob("R-TOKEN", afile, where, "the dask task name is tokenised over every array passed to the block function", ok, detail,
+           toks[0] if toks else "dask_name", line=site.line)
